@@ -595,7 +595,7 @@ theorem untracked_stay (B : Blk) (cfg : Config) (n : Nat) (s s' : State) (h : it
     (i : Nat) (r : Row) (hr : s.rows[i]? = some r) (hu : r.tracked = false) : s'.rows[i]? = some r := by
   have hext : Ext s s' := iter_inv_rows B cfg _ (ext_kept B cfg s) (fun _ _ h => h) n s s' (Ext.refl s) h
   obtain ⟨r', hr', f⟩ := hext i r hr
-  rw [hr', f.2.2.2.2 hu]
+  rw [hr', f.2.2.2.2.1 hu]
 
 /-- the attributes fixed at creation (label, key, entrance, sex) never change -/
 theorem creation_attributes_fixed (B : Blk) (cfg : Config) (n : Nat) (s s' : State)
@@ -1301,7 +1301,9 @@ theorem act_length (B : Blk) (cfg : Config) (ph : Nat) (evIdx : List Nat) (evTim
     simp only [hw, ↓reduceIte, Nat.add_zero]
     split at h
     · exact (mort_rel B cfg evIdx evTime s s' h).2.1
-    · exact (disease_rel B cfg evTime evIdx s s' h).2.1
+    · split at h
+      · rw [(observe_rel B cfg evTime ph evIdx evTime s s' h).2.1]
+      · exact (disease_rel B cfg evTime evIdx s s' h).2.1
 
 theorem runListeners_length (B : Blk) (cfg : Config) (ph : Nat) (evIdx : List Nat) (t : Int) :
     ∀ (rs : List Ev.Reg) (s s' : State), Good B cfg s → s.clock + cfg.step = t →
@@ -1330,6 +1332,7 @@ component list -/
 theorem regs_births_count (cfg : Config) (ph : Nat) :
     (regs cfg ph).countP (fun r => r.2 == 0) = cfg.order.count 0 := by
   unfold regs
+  rw [List.countP_cons_of_neg (by simp)]
   induction cfg.order with
   | nil => rfl
   | cons c cs ih =>
@@ -1351,6 +1354,9 @@ def PriosOk (cfg : Config) : Prop :=
 theorem regs_prio_lt (cfg : Config) (hp : PriosOk cfg) (ph : Nat) : ∀ r ∈ regs cfg ph, r.1 < Gen.nBuckets := by
   intro r hr
   unfold regs at hr
+  rw [List.mem_cons] at hr
+  rcases hr with hr | hr
+  · rw [hr]; decide
   rw [List.mem_flatMap] at hr
   obtain ⟨c, _, hc⟩ := hr
   split at hc
@@ -1474,8 +1480,8 @@ set_option maxRecDepth 100000 in
 /-- two steps of a run with a birth (label 2, entrance 0), a machine move (simulant 0) and two exits – one of them
 the newborn, one step after its birth -/
 example : ((initPopB toyB cfgEx).bind (iterWhole toyB cfgEx 2)).toOption.map (fun s => (s.clock, s.rows)) =
-    some (2, [⟨0, true, 447167675, -1, 0, 1, none⟩, ⟨1, false, 894335351, -1, 1, 1, some 1⟩,
-              ⟨2, false, 193682759, 0, 1, 0, some 2⟩]) := by decide +kernel
+    some (2, [⟨0, true, 447167675, -1, 0, 1, none, 0⟩, ⟨1, false, 894335351, -1, 1, 1, some 1, 0⟩,
+              ⟨2, false, 193682759, 0, 1, 0, some 2, 0⟩]) := by decide +kernel
 
 set_option maxRecDepth 100000 in
 /-- `run()` on the same configuration: the same state -/
